@@ -18,6 +18,27 @@ enum Layer {
     Filter { tree: Vec<String>, file: Vec<String>, log: Rc<RefCell<Vec<String>>> },
 }
 
+/// `%XX` in a tree specification stands for the raw byte XX (lets a scenario name files that
+/// are not valid UTF-8).
+fn decode_name(spec: &str) -> std::ffi::OsString {
+    use std::os::unix::ffi::OsStringExt;
+    let b = spec.as_bytes();
+    let mut out = Vec::with_capacity(b.len());
+    let mut i = 0;
+    while i < b.len() {
+        if b[i] == b'%' && i + 2 < b.len() + 0 && i + 2 <= b.len() - 1 + 1 {
+            if let Ok(v) = u8::from_str_radix(&spec[i + 1..i + 3], 16) {
+                out.push(v);
+                i += 3;
+                continue;
+            }
+        }
+        out.push(b[i]);
+        i += 1;
+    }
+    std::ffi::OsString::from_vec(out)
+}
+
 fn rel_to(root: &Path, p: &Path) -> String {
     match p.strip_prefix(root) {
         Ok(r) => r.to_string_lossy().into_owned(),
@@ -224,10 +245,10 @@ pub fn op_walk(cmd: &Value) -> Value {
         for p in cmd["tree"].as_array().cloned().unwrap_or_default() {
             let p = p.as_str().unwrap_or("").to_string();
             if let Some(dir) = p.strip_suffix('/') {
-                std::fs::create_dir_all(tmp.join(dir)).map_err(|e| e.to_string())?;
+                std::fs::create_dir_all(tmp.join(decode_name(dir))).map_err(|e| e.to_string())?;
             }
             else {
-                let f = tmp.join(&p);
+                let f = tmp.join(decode_name(&p));
                 if let Some(parent) = f.parent() {
                     std::fs::create_dir_all(parent).map_err(|e| e.to_string())?;
                 }
